@@ -14,7 +14,8 @@ PROPS = {
         part("cli", "internal", "TestVerifC03CLI", needs_pp=True)]},
     "C04": {"level": "exploration", "parts": [part("agg", "stack", "TestVerifC04")]},
     "C05": {"level": "exploration", "parts": [part("agg", "stack", "TestVerifC05")]},
-    "C13": {"level": "exploration", "parts": [part("order", "stack", "TestVerifC13")]},
+    # the thorough tier pushes about 1.1e9 snapshots through Aggregate: give it two hours
+    "C13": {"level": "exploration", "parts": [part("order", "stack", "TestVerifC13", deadline_s={"quick": 600, "thorough": 7200})]},
     "C06": {"level": "exploration", "parts": [
         part("mapchoice", "stack", "TestVerifC06", variant="mapchoice"),
         part("aggmap", "stack", "TestVerifC06Agg", variant="mapchoice"),
